@@ -37,13 +37,14 @@ type Event struct {
 	Status   []string        `json:"status"`
 	Staged   [][3]int        `json:"staged"`
 	NCommits int             `json:"ncommits"`
+	Objs     [][3]int        `json:"objs"`
 	Err      string          `json:"err"`
 	StoreOps []string        `json:"storeops"`
 }
 
 func newEvent(op, mode string) *Event {
 	e := &Event{Op: op, Mode: mode, How: "-", Res: "-", Heads: make([][][2]int, traceNB), Logs: make([][]interface{}, traceNB),
-		Status: make([]string, traceNT), Staged: [][3]int{}, StoreOps: []string{}}
+		Status: make([]string, traceNT), Staged: [][3]int{}, Objs: [][3]int{}, StoreOps: []string{}}
 	for i := range e.Heads {
 		e.Heads[i] = [][2]int{}
 		e.Logs[i] = []interface{}{}
@@ -165,6 +166,18 @@ func (w *World) project(e *Event, txs []uuid.UUID) error {
 		return a[1] < b[1]
 	})
 	e.NCommits = len(coms)
+	for k := range coms {
+		e.Objs = append(e.Objs, name([]byte(k)))
+	}
+	sort.Slice(e.Objs, func(i, j int) bool {
+		a, b := e.Objs[i], e.Objs[j]
+		for x := 0; x < 3; x++ {
+			if a[x] != b[x] {
+				return a[x] < b[x]
+			}
+		}
+		return false
+	})
 	return nil
 }
 
